@@ -295,6 +295,14 @@ def write_replay(ctx: Ctx, name: str, data: dict) -> Path:
 
 def finish(ctx: Ctx, search=None) -> int:
     """Decide the verdict, write evidence, print VIOLATION / KNOWN-FINDING lines, return exit code."""
+    # replay files of an earlier run with the same property, seed (they would be mistaken for this run's)
+    for name in ("violation", "broken"):
+        old = REPLAYS / f"{ctx.pid}_{name}_seed{ctx.seed}.json"
+        if old.exists() and not getattr(ctx, "replay", None):
+            try:
+                old.unlink()
+            except OSError:
+                pass
     lines = []
     code = 0
     for k in ctx.known_hits:
